@@ -256,6 +256,41 @@ func (s *Sched) release(m any, read bool, real func()) {
 	s.mu.Unlock()
 }
 
+// tryAcquire: a scheduling point like any acquisition; the answer is the simulated
+// state of the lock (which the real one follows).
+func (s *Sched) tryAcquire(m any, read bool, real func() bool) bool {
+	t := s.cur()
+	s.mu.Lock()
+	if s.aborted {
+		s.mu.Unlock()
+		panic(&abortRun{"aborted"})
+	}
+	t.state = tsParked
+	s.mu.Unlock()
+	s.park(t)
+	s.mu.Lock()
+	free := s.owner[m] == nil && (read || s.readers[m] == 0)
+	if free {
+		if read {
+			s.readers[m]++
+		} else {
+			s.owner[m] = t
+		}
+	}
+	s.mu.Unlock()
+	if !free {
+		return false
+	}
+	if !real() {
+		panic(&HarnessError{Msg: "a lock that is free in the simulation is held for real"})
+	}
+	return true
+}
+
+func (s *Sched) TryLock(m *sync.Mutex) bool     { return s.tryAcquire(m, false, m.TryLock) }
+func (s *Sched) RWTryLock(m *sync.RWMutex) bool { return s.tryAcquire(m, false, m.TryLock) }
+func (s *Sched) TryRLock(m *sync.RWMutex) bool  { return s.tryAcquire(m, true, m.TryRLock) }
+
 func (s *Sched) Lock(m *sync.Mutex)       { s.acquire(m, false, m.Lock) }
 func (s *Sched) Unlock(m *sync.Mutex)     { s.release(m, false, m.Unlock) }
 func (s *Sched) RWLock(m *sync.RWMutex)   { s.acquire(m, false, m.Lock) }
